@@ -72,6 +72,10 @@ def judge(sp):
             from checks.c03_roundtrip import spec_features
             ft = spec_features(sp)
             cls = ft or imm_class(sp) or mn_class(sp["mn"])
+            if kind == "candidate-sets-differ" and str(cls).split("+")[0] in ("negative-immediate", "immediate-with-top-bit-set", "immediate-out-of-range"):
+                # which side lacks candidates, and at which operand width: a listed difference of one kind must not cover another
+                a, b_ = set(r0[1]), set(r[1])
+                cls = "%s/w%s/%s" % (cls, sp.get("w") or "-", "att-empty" if not b_ else "intel-empty" if not a else "att-lacks" if b_ < a else "intel-lacks" if a < b_ else "both-differ")
             out.append((("att-transliteration", kind, cls if (kind != "exception:ValueError" or ft) else sp["mn"]),
                         "asm(%r) = %s but asm_att(%r) = %s" % (base, show(r0), al, show(r)), {"spec": sp, "rewrite": "att"}))
         else:
